@@ -661,6 +661,47 @@ func checkC06(c *Ctx, r *Report) {
 
 	checkD9(c, r)
 	checkE3(c, r)
+	if c.Tier == "thorough" {
+		checkDependencyWriters(c, r)
+	}
+}
+
+// checkDependencyWriters (thorough tier): the thin third-party container
+// writers that sit between a packager and the caller's io.Writer are loaded
+// with their bodies and scanned with the same dropped-error rule.
+func checkDependencyWriters(c *Ctx, r *Report) {
+	deps := map[string]bool{"github.com/blakesmith/ar": true}
+	n := 0
+	for fn := range ssautilAllFunctions(c) {
+		if fn.Blocks == nil || fn.Pkg == nil || fn.Pkg.Pkg == nil || !deps[fn.Pkg.Pkg.Path()] {
+			continue
+		}
+		if fn.Signature.Recv() == nil || !strings.Contains(fn.Signature.Recv().Type().String(), "Writer") {
+			continue
+		}
+		perCallee := map[string]int{}
+		fk := strings.TrimPrefix(fn.RelString(nil), "github.com/")
+		forEachInstr(fn, func(in ssa.Instruction) {
+			call, ok := in.(ssa.CallInstruction)
+			if !ok {
+				return
+			}
+			val, hasErr := errValueOf(call)
+			if !hasErr {
+				return
+			}
+			n++
+			cname := calleeName(call)
+			perCallee[cname]++
+			construct := fmt.Sprintf("%s -> %s#%d", fk, cname, perCallee[cname])
+			if val == nil {
+				r.Fail("E1-dep", construct, c.instrPos(in), "the error of a write to the destination is discarded inside the container writer used by the deb packager: a failure of exactly this write goes unreported")
+			} else {
+				r.Pass("E1-dep", construct, c.instrPos(in), "error result used")
+			}
+		})
+	}
+	r.Floor("E1-dep", n, 3)
 }
 
 func shortName(q string) string {
